@@ -21,6 +21,7 @@ package batchresource
 // exact rational margin). No band on the percentage cap (truncation only lowers it) and none on ">= 0".
 
 import (
+	"context"
 	"encoding/json"
 	"fmt"
 	"os"
@@ -36,10 +37,13 @@ import (
 	topov1alpha1 "github.com/k8stopologyawareschedwg/noderesourcetopology-api/pkg/apis/topology/v1alpha1"
 	corev1 "k8s.io/api/core/v1"
 	"k8s.io/apimachinery/pkg/api/resource"
+	apierrors "k8s.io/apimachinery/pkg/api/errors"
 	metav1 "k8s.io/apimachinery/pkg/apis/meta/v1"
 	"k8s.io/apimachinery/pkg/runtime"
+	"k8s.io/apimachinery/pkg/runtime/schema"
 	clientgoscheme "k8s.io/client-go/kubernetes/scheme"
 	fakeclock "k8s.io/utils/clock/testing"
+	ctrlclient "sigs.k8s.io/controller-runtime/pkg/client"
 	"sigs.k8s.io/controller-runtime/pkg/client/fake"
 
 	"github.com/koordinator-sh/koordinator/apis/configuration"
@@ -809,6 +813,8 @@ type c09Space struct {
 	dims       []c09Dim
 	endToEnd   bool
 	repeat     int // extra executions of every case (other Go map iteration orders); results must be identical
+	share      float64 // part of the unit's time budget this product may use (0 = whatever is left)
+	stub       bool    // serve the NodeResourceTopology from the in-memory stub instead of the fake client
 }
 
 func c09Strs(v []string) string { return "{" + strings.Join(v, ",") + "}" }
@@ -914,6 +920,14 @@ func c09Run(env *mc.Env, sp *c09Space) {
 		return id
 	}
 	start := time.Now()
+	deadline := start.Add(24 * time.Hour)
+	if sp.share > 0 && env.Thorough() { // quick products are small: first come, first served
+		deadline = start.Add(time.Duration(sp.share * float64(env.Budget)))
+	}
+	client = c09FakeClient
+	if sp.stub {
+		client = c09Stub
+	}
 	// the engine hands out chunks of 256 consecutive indices; one outer tuple (a block of innerSize cases) is
 	// mapped to one chunk so that blocks spread over all workers and the budget is checked per block
 	done, complete := env.ParallelRangeL(res, orx.Size()*256, func(l *mc.Local, i256 int64) {
@@ -921,7 +935,7 @@ func c09Run(env *mc.Env, sp *c09Space) {
 			return
 		}
 		i := i256 / 256
-		if env.Expired() {
+		if env.Expired() || time.Now().After(deadline) {
 			skipped.Add(1)
 			return
 		}
@@ -1038,7 +1052,7 @@ func c09Run(env *mc.Env, sp *c09Space) {
 		"monotonicity: every pair of cases differing by one step in one consumption dimension (kubelet-/annotation-reserved, system-usage, host-app-prod-usage, dangling-metric, pod.request, pod.usage, margin); " +
 		"non-trivial = something > 0 is published; distinct = distinct (capacity, policies, thresholds, reference terms, published amounts) among those"
 	res.Bounds = map[string]any{"pods": len(sp.base.Pods), "outer_tuples": orx.Size(), "cases_per_outer_tuple": innerSize,
-		"end_to_end_Plugin.Calculate": sp.endToEnd}
+		"end_to_end_Plugin.Calculate": sp.endToEnd, "nrt_served_by": map[bool]string{true: "in-memory stub client (Get only)", false: "controller-runtime fake client"}[sp.stub]}
 	res.Assumptions = c09Assumptions
 	res.WallS = time.Since(start).Seconds()
 	env.Emit(res)
@@ -1111,6 +1125,25 @@ func c09Base() c09Case {
 	return c09Case{Reclaim: 100, Pct: -1, AgeSec: 60, Degrade: 15, CPUPol: "usage", MemPol: "usage"}
 }
 
+// c09StubClient serves NodeResourceTopology objects from memory (Get only). It is used for the large zone
+// products; the small calc-degrade product goes through the controller-runtime fake client.
+type c09StubClient struct {
+	ctrlclient.Client
+	nrts map[string]*topov1alpha1.NodeResourceTopology
+}
+
+func (s *c09StubClient) Get(_ context.Context, key ctrlclient.ObjectKey, obj ctrlclient.Object, _ ...ctrlclient.GetOption) error {
+	n, ok := s.nrts[key.Name]
+	out, isNRT := obj.(*topov1alpha1.NodeResourceTopology)
+	if !ok || !isNRT {
+		return apierrors.NewNotFound(schema.GroupResource{Group: "topology.node.k8s.io", Resource: "noderesourcetopologies"}, key.Name)
+	}
+	n.DeepCopyInto(out)
+	return nil
+}
+
+var c09FakeClient, c09Stub ctrlclient.Client
+
 func c09Setup() func() {
 	oldClock, oldClient := Clock, client
 	oldGC := debug.SetGCPercent(800) // the code under check allocates many small maps; fewer GC cycles, same results
@@ -1120,6 +1153,7 @@ func c09Setup() func() {
 	_ = slov1alpha1.AddToScheme(scheme)
 	_ = topov1alpha1.AddToScheme(scheme)
 	b := fake.NewClientBuilder().WithScheme(scheme)
+	stub := &c09StubClient{nrts: map[string]*topov1alpha1.NodeResourceTopology{}}
 	for ci, k := range c09Caps {
 		cc := c09Case{Cap: ci, Zones: 2}
 		nrt := &topov1alpha1.NodeResourceTopology{
@@ -1138,8 +1172,10 @@ func c09Setup() func() {
 			})
 		}
 		b = b.WithObjects(nrt)
+		stub.nrts[nrt.Name] = nrt.DeepCopy()
 	}
-	client = b.Build()
+	c09FakeClient, c09Stub = b.Build(), stub
+	client = c09FakeClient
 	return func() { Clock, client = oldClock, oldClient; debug.SetGCPercent(oldGC) }
 }
 
@@ -1201,13 +1237,13 @@ func TestVerifC09Node(t *testing.T) {
 
 	// (1) one pod, every attribute combination, full environment alphabets
 	if env.Thorough() {
-		sp := &c09Space{unit: "node", part: "node-1pod", base: c09Base()}
+		sp := &c09Space{unit: "node", part: "node-1pod", base: c09Base(), share: 0.35}
 		c09CapDim(sp, []int64{0})
 		c09EnvDims(sp, res3, res3, sys3, host2, dang3, host2)
 		sp.addPods(1, onePod)
-		c09StrategyDims(sp, fullPols, []int64{100, 65, 60}, pct3)
+		c09StrategyDims(sp, fullPols, c09Reclaim2, pct3)
 		c09Run(env, sp)
-		sp = &c09Space{unit: "node", part: "node-1pod-large", base: c09Base()}
+		sp = &c09Space{unit: "node", part: "node-1pod-large", base: c09Base(), share: 0.15}
 		c09CapDim(sp, []int64{1})
 		c09EnvDims(sp, res3, res3, sys3, host2, dang3, []int64{1})
 		sp.addPods(1, onePod)
@@ -1223,13 +1259,13 @@ func TestVerifC09Node(t *testing.T) {
 	}
 	// (2) two pods
 	{
-		sp := &c09Space{unit: "node", part: "node-2pods", base: c09Base()}
+		sp := &c09Space{unit: "node", part: "node-2pods", base: c09Base(), share: 0.35}
 		c09CapDim(sp, []int64{0})
 		if env.Thorough() {
 			sp.base.ARes = 1
 			c09EnvDims(sp, []int64{0, 3}, []int64{1}, []int64{0, 5}, []int64{0}, []string{"", "prod"}, []int64{0})
 			sp.addPods(2, c09PodAlpha{prio: c09AllPrio, qos: []string{"LSE", "LS", "BE"}, phase: []string{"Running", "Succeeded"},
-				req: []int64{0, 1, 2, 4}, use: []int64{-1, 0, 1, 3, 6}})
+				req: []int64{0, 2, 4}, use: []int64{-1, 0, 1, 3, 6}})
 			c09StrategyDims(sp, c09Cross(c09CPUPols, c09MemPols), c09Reclaim2, []int64{-1, 30})
 		} else {
 			c09EnvDims(sp, []int64{0, 3}, []int64{1}, []int64{0, 5}, []int64{0}, []string{"", "prod"}, []int64{0})
@@ -1247,7 +1283,7 @@ func TestVerifC09Node(t *testing.T) {
 			c09EnvDims(sp, []int64{0, 3}, []int64{0}, []int64{0, 5}, []int64{0}, []string{""}, []int64{0})
 			sp.addPods(3, c09PodAlpha{prio: []string{"prod", "batch", "none"}, qos: []string{"LSE", "LS", "BE"},
 				phase: []string{"Running", "Succeeded"}, req: []int64{1, 4}, use: []int64{-1, 1, 3}})
-			c09StrategyDims(sp, c09Cross(c09CPUPols, c09MemPols), c09Reclaim2, []int64{-1, 30})
+			c09StrategyDims(sp, c09PolPairs, c09Reclaim2, []int64{-1, 30})
 		} else {
 			c09EnvDims(sp, []int64{1}, []int64{0}, []int64{0, 2}, []int64{0}, []string{""}, []int64{0})
 			sp.addPods(3, c09PodAlpha{prio: []string{"prod", "batch"}, qos: []string{"LSE", "LS"},
@@ -1287,7 +1323,7 @@ func TestVerifC09Calc(t *testing.T) {
 	}
 	// (5) two zones, pods with / without NUMA allocation
 	{
-		sp := &c09Space{unit: "calc", part: "calc-zones", base: c09Base(), endToEnd: true}
+		sp := &c09Space{unit: "calc", part: "calc-zones", base: c09Base(), endToEnd: true, stub: true, share: 0.7}
 		sp.base.Zones = 2
 		if env.Thorough() {
 			c09CapDim(sp, []int64{0})
@@ -1297,7 +1333,7 @@ func TestVerifC09Calc(t *testing.T) {
 			c09StrategyDims(sp, c09Cross(c09CPUPols, c09MemPols), c09Reclaim2, []int64{-1, 30})
 			c09Run(env, sp)
 			// the 100-core / 200 G node (non-integral cores per unit, decimal bytes)
-			sp = &c09Space{unit: "calc", part: "calc-zones-large", base: c09Base(), endToEnd: true}
+			sp = &c09Space{unit: "calc", part: "calc-zones-large", base: c09Base(), endToEnd: true, stub: true}
 			sp.base.Zones = 2
 			c09CapDim(sp, []int64{1})
 			c09EnvDims(sp, []int64{0, 3}, []int64{0}, []int64{0, 5}, []int64{0}, []string{"", "prod"}, []int64{0})
